@@ -34,6 +34,11 @@ func Message(t *rapid.T, prev []byte, bufSize int) []byte {
 		if bufSize < 2 {
 			return []byte{0xF6}
 		}
+		if bufSize >= 10 && rapid.IntRange(0, 3).Draw(t, "wellKnownSysex?") == 0 {
+			// universal sysex messages every device knows (their content resembles other message classes)
+			dev := rapid.SampledFrom([]byte{0x7F, 0x00, 0x10}).Draw(t, "sysexDevice")
+			return fitting(t, bufSize, WellKnownSysex(dev))
+		}
 		n := rapid.OneOf(rapid.IntRange(0, min(8, bufSize-2)), rapid.IntRange(0, bufSize-2), rapid.Just(bufSize-2)).Draw(t, "syxPayload")
 		m := []byte{0xF0}
 		if n <= 16 {
@@ -76,4 +81,35 @@ func Items(t *rapid.T, bufSize int, maxItems int) []midiref.Item {
 		items = append(items, it)
 	}
 	return items
+}
+
+// fitting draws one of the messages that fit into bufSize bytes (there is always one).
+func fitting(t *rapid.T, bufSize int, all [][]byte) []byte {
+	var ok [][]byte
+	for _, m := range all {
+		if len(m) <= bufSize {
+			ok = append(ok, m)
+		}
+	}
+	return append([]byte{}, rapid.SampledFrom(ok).Draw(t, "wellKnownSysex")...)
+}
+
+// WellKnownSysex lists universal sysex messages every device knows; their content resembles other
+// message classes (time code, transport commands).
+func WellKnownSysex(dev byte) [][]byte {
+	return [][]byte{
+		{0xF0, 0x7F, dev, 0x01, 0x01, 0x01, 0x02, 0x03, 0x04, 0xF7},                   // MTC full frame
+		{0xF0, 0x7F, dev, 0x01, 0x02, 0x01, 0x02, 0x03, 0x04, 0xF7},                   // MTC user bits (short form)
+		{0xF0, 0x7F, dev, 0x06, 0x01, 0xF7},                                           // MMC stop
+		{0xF0, 0x7F, dev, 0x06, 0x02, 0xF7},                                           // MMC play
+		{0xF0, 0x7F, dev, 0x06, 0x03, 0xF7},                                           // MMC deferred play
+		{0xF0, 0x7F, dev, 0x06, 0x09, 0xF7},                                           // MMC pause
+		{0xF0, 0x7F, dev, 0x06, 0x44, 0x06, 0x01, 0x01, 0x02, 0x03, 0x04, 0x00, 0xF7}, // MMC locate
+		{0xF0, 0x7E, dev, 0x09, 0x01, 0xF7},                                           // GM system on
+		{0xF0, 0x7E, dev, 0x06, 0x01, 0xF7},                                           // identity request
+		{0xF0, 0x7F, dev, 0x04, 0x01, 0x00, 0x7F, 0xF7},                               // master volume
+		{0xF0, 0x7F, dev, 0x03, 0x01, 0xF7},                                           // MIDI show control-like
+		{0xF0, 0x41, 0x10, 0x42, 0x12, 0x40, 0x00, 0x7F, 0x00, 0x41, 0xF7},            // Roland GS reset
+		{0xF0, 0x7E, dev, 0x7E, 0xF7}, {0xF0, 0x7E, dev, 0x7F, 0xF7},                  // ACK-like
+	}
 }
